@@ -37,7 +37,7 @@ ASSUMPTIONS = [
     "at least one PSM row; the first field of a PSM row does not start with 'DefaultDirection'",
     "the header names the protein column exactly 'Proteins'",
 ]
-TOKEN_ALPHABET = "abcXYZ019_|.-[]+:;,/#=@"
+TOKEN_ALPHABET = "abcXYZ019_|.-[]+:;,/#=@\"'"
 
 
 def budget(tier):
